@@ -3,9 +3,10 @@ import N0Verif.Val
 /-!
   Model of the delimited-text codecs of `n0struct_utils.py`
   (`split_with_escape`, `deserialize_list`, `deserialize_key_value`, `deserialize_dict`,
+  `deserialize_list_of_lists`, `deserialize_fixed_list`, `get_value_by_tag`,
   `serialize_dict`, `unescape`) — property C17.
 
-  The model follows the code **with the fix patches `fixes/C17-a … C17-e` applied**:
+  The model follows the code **with the fix patches `fixes/C17-a … C17-e`, `C17-h`, `C17-i` applied**:
   * C17-a  the last item is trimmed according to its own escape run (`separated_items[-1]`, not the
            loop variable `item`, which is unbound when the `for` body never ran);
   * C17-b  `serialize_dict` writes reserved characters as `\xNN` with two hex digits;
@@ -13,7 +14,10 @@ import N0Verif.Val
   * C17-d  the halved escape run is written with `escape_character`, not with a literal backslash;
   * C17-e  `unescape` hands `unicode_escape` Latin-1 bytes (other characters as `\uNNNN` escapes)
            instead of UTF-8 bytes, and `serialize_dict` writes a reserved character above U+00FF as
-           `\uNNNN` / `\UNNNNNNNN` instead of `\x` followed by more than two digits.
+           `\uNNNN` / `\UNNNNNNNN` instead of `\x` followed by more than two digits;
+  * C17-h  `unescape` returns a value that is neither a string nor a list / dict (`None`, numbers)
+           unchanged instead of calling `.copy()` on it;
+  * C17-i  `deserialize_list_of_lists` hands `parse_empty` to the inner `deserialize_list` too.
 
   Scope: the escape character is `None`/`''` (`none`) or one character; delimiters and equal tags
   are arbitrary strings (the empty one raises `ValueError`, as `str.split` does); `maxsplit` is a
@@ -212,6 +216,30 @@ def deserializeDict (s d eq : Str) (pe : Bool) (dk dv : Option Str) :
   let items ← deserializeList s d pe none
   let pairs ← items.mapM (keyValue eq dk dv)
   return dictOfPairs pairs
+
+/-! ### `deserialize_list_of_lists`, `deserialize_fixed_list`, `get_value_by_tag` -/
+
+/-- `deserialize_list_of_lists(s, d, delimiter_for_sublists=ds, parse_empty=pe)` with the default
+`parse_item` / `parse_sublist`: the outer `deserialize_list`, each kept item handed to the inner one.
+Fix C17-i: the inner call gets `parse_empty` too (before it always ran with the default `False`).
+The inner call happens only for kept items, so an empty `ds` raises only if there is one. -/
+def deserializeListOfLists (s d ds : Str) (pe : Bool) : PyM (List (List Str)) := do
+  let outer ← deserializeList s d pe none
+  outer.mapM (fun it => deserializeList it ds pe none)
+
+/-- `deserialize_fixed_list(s, n, d, default_item=dflt, parse_empty=pe)` for `n ≥ 0`:
+`(deserialize_list(…) + [default_item]*n)[0:n]` -/
+def deserializeFixedList (s d : Str) (n : Nat) (dflt : Option Str) (pe : Bool) : PyM (List (Option Str)) := do
+  let items ← deserializeList s d pe none
+  return (items.map some ++ List.replicate n dflt).take n
+
+/-- `get_value_by_tag(tag, s, d, eq, default_key=dk, default_value=dv)`:
+`deserialize_dict(…).get(tag) or default_value` -/
+def getValueByTag (tag s d eq : Str) (dk dv : Option Str) : PyM (Option Str) := do
+  let ps ← deserializeDict s d eq false dk dv
+  match ps.lookup tag with
+  | some (some v) => if v.isEmpty then return dv else return some v
+  | _ => return dv
 
 /-! ### `serialize_dict` -/
 
@@ -416,13 +444,19 @@ def unescape (s : Str) : Except UErr Str :=
   let b := toBytes s
   unescB b.length b
 
-/-- `unescape(d)` for a dict whose values are strings or `None` (`None.copy()` fails) -/
-def unescapeDict : List (Str × Option Str) → Except UErr (List (Str × Str))
+/-- `unescape(v)` for a value that is a string or `None`; fix C17-h: a value that is neither a
+string nor a list / dict (`None`, a number, a bool — e.g. the default value of a key without `=`)
+is returned as it is (before the fix `None.copy()` raised `AttributeError`) -/
+def unescapeOpt : Option Str → Except UErr (Option Str)
+  | none => .ok none
+  | some v => (unescape v).map some
+
+/-- `unescape(d)` for a dict whose values are strings or `None` -/
+def unescapeDict : List (Str × Option Str) → Except UErr (List (Str × Option Str))
   | [] => .ok []
-  | (k, some v) :: r =>
-    match unescape v with
+  | (k, v) :: r =>
+    match unescapeOpt v with
     | .error e => .error e
     | .ok v' => (unescapeDict r).map ((k, v') :: ·)
-  | (_, none) :: _ => .error .AttributeError
 
 end N0.Esc
